@@ -218,7 +218,7 @@ func (r *Run) prepareCall(fr *frame, call *ssa.CallCommon) (fn Value, args []Val
 		if recv.T == nil {
 			panic(targetPanic{v: r.runtimeErr("invalid memory address or nil pointer dereference"), msg: "method " + call.Method.Name() + " invoked on nil interface"})
 		}
-		if recv.T == errObjType || recv.T == runtimeErrType {
+		if recv.T == errObjType || recv.T == runtimeErrType || recv.T == flateReaderType {
 			fn = &fakeMethod{recv: recv, name: call.Method.Name()}
 		} else {
 			f := r.m.prog.LookupMethod(recv.T, call.Method.Pkg(), call.Method.Name())
@@ -255,6 +255,16 @@ func (r *Run) call(caller *frame, pos token.Pos, fn Value, args []Value) Value {
 	case *ssa.Builtin:
 		return r.callBuiltin(caller, pos, fn, args)
 	case *fakeMethod:
+		if fn.recv.T == flateReaderType {
+			fr := fn.recv.V.(*Opaque).Data.(*flateR)
+			switch fn.name {
+			case "Read":
+				return r.flateRead(caller, fr, args[0].(Slice))
+			case "Close":
+				return Iface{}
+			}
+			panic(unsupported("flate stub reader method " + fn.name))
+		}
 		return r.callFakeMethod(fn, args)
 	case *nativeFunc:
 		return fn.f(r, caller, args)
